@@ -262,10 +262,16 @@ CHECKS["C14"] = {
          "params": {"quick": grid(n=[0, 1, 2, 3, 4]), "thorough": grid(n=[0, 1, 2, 3, 4, 5, 6])}, "cover": []},
         {"name": "namespace", "pkg": "internal/state", "pkgname": "state", "entry": "VerifC14Namespace",
          "files": ["zz_verif_c14.go", "zz_verif_c17.go"] + STATE_FILES, "with": ["verifdb"], "gen_stubs": [TX_STUB],
-         "params": {"quick": grid(k=[1, 2]), "thorough": grid(k=[3])}, "cover": []},
+         "params": {"quick": grid(k=[1, 2], holes=[0]) + grid(k=[1], holes=[1]), "thorough": grid(k=[3], holes=[0]) + grid(k=[2], holes=[1])}, "cover": []},
         {"name": "list", "pkg": "internal/state", "pkgname": "state", "entry": "VerifC14List",
          "files": ["zz_verif_c14.go", "zz_verif_c17.go"] + STATE_FILES, "with": ["verifdb"], "gen_stubs": [TX_STUB],
          "params": {"quick": [{}], "thorough": [{}]}, "cover": ["list-done"]},
+        {"name": "connector", "pkg": "internal/backend", "pkgname": "backend", "entry": "VerifC06Apply", "files": ["zz_verif_backend.go"], "with": ["verifdb"],
+         "gen_stubs": [{"pkgpath": "github.com/ProtonMail/gluon/connector", "iface": "Connector", "type": "verifConnBase"}],
+         "params": {"quick": grid(faults=[0]), "thorough": grid(faults=[0, 1])}, "cover": ["apply-ok"]},
+        {"name": "listdot", "pkg": "internal/state", "pkgname": "state", "entry": "VerifC14ListDot",
+         "files": ["zz_verif_c14.go", "zz_verif_c17.go"] + STATE_FILES, "with": ["verifdb"], "gen_stubs": [TX_STUB],
+         "params": {"quick": [{}], "thorough": [{}]}, "cover": ["list-dot-done"]},
         {"name": "lsub", "pkg": "internal/state", "pkgname": "state", "entry": "VerifC14Lsub",
          "files": ["zz_verif_c14.go", "zz_verif_c17.go"] + STATE_FILES, "with": ["verifdb"], "gen_stubs": [TX_STUB],
          "params": {"quick": [{}], "thorough": [{}]}, "cover": ["lsub-done"]},
